@@ -123,20 +123,20 @@ def runQuery (cfg : Cfg) (ft : FTab) (q : String) : String :=
   match words q with
   | ["a", s, t] =>
     match parseSrc s, nat? t with
-    | some (s, isN), some t =>
-      let (o, tr) := adapt cfg f isN s [] t false
+    | some (s, _), some t =>
+      let (o, tr) := adapt cfg f s [] t false
       s!"{showOut o} {showTrace tr}"
     | _, _ => "bad-query"
   | ["d", s, t] =>
     match parseSrc s, nat? t with
-    | some (s, isN), some t =>
-      let (o, tr) := adapt cfg f isN s [] t true
+    | some (s, _), some t =>
+      let (o, tr) := adapt cfg f s [] t true
       s!"{showOut o} {showTrace tr}"
     | _, _ => "bad-query"
   | ["s", s, t] =>
     match parseSrc s, nat? t with
-    | some (s, isN), some t =>
-      let (o, tr) := supportsProtocol cfg f isN s [] t
+    | some (s, _), some t =>
+      let (o, tr) := supportsProtocol cfg f s [] t
       (match o with | .ok true => "yes" | .ok false => "no" | .error e => s!"err {e.name}") ++ s!" {showTrace tr}"
     | _, _ => "bad-query"
   | ["m", t, p] =>
@@ -147,7 +147,7 @@ def runQuery (cfg : Cfg) (ft : FTab) (q : String) : String :=
     match nat? mode, nat? an, parseSrc s, nat? t with
     | some mode, some an, some (s, isN), some t =>
       let calls := validateCalls mode isN
-      let (ad, tr) := if calls then adapt cfg f isN s [] t true else (Out.default, [])
+      let (ad, tr) := if calls then adapt cfg f s [] t true else (Out.default, [])
       -- isinstance(value, klass) = issubclass(type(value), klass) for the harness's objects
       let v := validateTrait mode (an == 1) isN (cfg.provides s t) ad
       match v with
@@ -223,7 +223,7 @@ def hStep (pm : List (List Bool)) (m : List (List Nat)) (cls : String) (mode : N
           { provides := lookupP pm, supers := fun t => m.getD t [], groups := groupsOf (st.offers.map (·.offer)) }
         let ft := { st.ft with ident := (st.offers.filter (·.ident)).map (·.offer.id) }
         let f := mkFactory ft isN
-        let (ad, tr) := if validateCalls mode isN then adapt cfg f isN srcT [] tgt true else (Out.default, [])
+        let (ad, tr) := if validateCalls mode isN then adapt cfg f srcT [] tgt true else (Out.default, [])
         let v := validateTrait mode an isN (cfg.provides srcT tgt) ad
         let original : HV := if isN then .none else .obj j
         match v with
